@@ -278,8 +278,14 @@ func drawComp(t *rapid.T, valid bool, label string) *MComp {
 	c.Value = bp(drawBytes(t, drawHashLen(t, label+".vlen"), label+".value"))
 	c.Signer = bp(drawBytes(t, drawHashLen(t, label+".slen"), label+".signer"))
 	if !valid {
-		which := rapid.IntRange(0, 5).Draw(t, label+".defect")
+		which := rapid.IntRange(0, 7).Draw(t, label+".defect")
 		switch which {
+		case 6:
+			// both mandatory fields absent
+			c.Value, c.Signer = nil, nil
+		case 7:
+			// a component without any field at all
+			*c = MComp{}
 		case 0:
 			c.Value = nil
 		case 1:
@@ -429,6 +435,11 @@ func deviate(t *rapid.T, m *MClaims, c Claim, literalOnly bool) {
 				m.CompsNil = false
 			}
 			m.NoMeas = u64p(rapid.SampledFrom([]uint64{1, 0, 2}).Draw(t, "nomeas.val"))
+			if genBool.Draw(t, "sw.flag+badcomp") {
+				// ... and one entry of that list is malformed as well
+				i := rapid.IntRange(0, len(m.Comps)-1).Draw(t, "sw.badidx2")
+				m.Comps[i] = drawComp(t, false, "sw.bad2")
+			}
 		default: // a bad component at a random index
 			if len(m.Comps) == 0 {
 				m.Comps = drawValidComps(t, "sw")
